@@ -285,7 +285,36 @@ impl Engine {
             Act::SetP { level, page, .. } => format!("set_flags_p{}_entry<{}>", level, sz_name(self.al.pages[*page as usize].0)),
             Act::CleanAll => "clean_up".into(),
             Act::CleanRange { .. } => "clean_up_addr_range".into(),
+            Act::IdentHigh { which } => format!("identity_map<{}>", sz_name(IDENT_HIGH[*which as usize].0)),
         }
+    }
+
+    /// identity_map of a frame whose address is not a canonical virtual address: no page has that address, so no call history
+    /// dictates a mapping for it - the call must not succeed and must leave every translation and every table as it was
+    fn step_ident_high(&mut self, st: &State, ai: usize, before: &Tree) -> Option<State> {
+        let act = self.acts[ai].0;
+        let op = self.op_name(&act);
+        let mut ast = AllocState { free: st.free.clone() };
+        let out = self.run_call(&act, &mut ast);
+        for p in PROPS {
+            self.reps.get_mut(p).unwrap().transitions += 1;
+        }
+        let s = sim();
+        let after = walk_all_mode(s, self.skip, false);
+        let detail = format!("frame {:#x}: {:?}", match act { Act::IdentHigh { which } => IDENT_HIGH[which as usize].1, _ => 0 }, out.as_ref().map(|o| (o.oc.clone(), o.flush_page)));
+        if matches!(&out, Some(o) if o.oc == Oc::Ok) {
+            self.viol("C01", &format!("{}|succeeds-for-a-frame-whose-address-is-not-a-virtual-address-(maps-some-other-page)", op), &st.hist, Some(ai), &detail);
+            self.viol("C02", &format!("{}|reports-success-for-a-mapping-that-cannot-exist", op), &st.hist, Some(ai), &detail);
+        }
+        if after.leaves != before.leaves {
+            self.viol("C01", &format!("{}|a-call-that-cannot-succeed-changed-what-addresses-translate-to", op), &st.hist, Some(ai), &detail);
+            self.viol("C02", &format!("{}|a-call-that-cannot-succeed-changed-a-mapping", op), &st.hist, Some(ai), &detail);
+            self.viol("C11", &format!("{}|a-leaf-mapping-changed-by-a-call-that-cannot-succeed", op), &st.hist, Some(ai), &detail);
+        }
+        if s.nstray > 0 {
+            self.viol("C09", &format!("{}|stray-access", op), &st.hist, Some(ai), &detail);
+        }
+        None
     }
 
     fn run_call(&mut self, act: &Act, ast: &mut AllocState) -> Option<Outcome> {
@@ -302,6 +331,9 @@ impl Engine {
     /// One transition. Returns the successor state if the transition was clean.
     pub fn step(&mut self, st: &State, ai: usize, tree_before: &Tree) -> Option<State> {
         let (act, cost) = self.acts[ai];
+        if matches!(act, Act::IdentHigh { .. }) {
+            return if st.ood { None } else { self.step_ident_high(st, ai, tree_before) };
+        }
         if st.ood || is_ood_action(&act) {
             return self.step_ood(st, ai, tree_before);
         }
@@ -1256,6 +1288,49 @@ impl Engine {
     }
 }
 
+impl Engine {
+    /// Wide histories (alphabet W): n sibling tables under one parent are created, emptied and cleaned up in ONE clean-up call,
+    /// for every n the frame pool allows (1..=21) at each of the three levels; with all pages unmapped, and with the last one
+    /// left mapped. Every call goes through the ordinary transition oracles.
+    pub fn wide(&mut self) {
+        if self.cfg.variant != 'W' {
+            return;
+        }
+        let find = |acts: &Vec<(Act, u8)>, want: Act| acts.iter().position(|(a, _)| *a == want).unwrap();
+        let mut steps = 0u64;
+        for sz in [0u8, 1, 2] {
+            let idxs: Vec<u8> = self.al.pages.iter().enumerate().filter(|(_, p)| p.0 == sz).map(|(i, _)| i as u8).collect();
+            for n in 1..=idxs.len() {
+                for (keep_last, clean) in [(false, Act::CleanAll), (false, Act::CleanRange { r: 11 }), (true, Act::CleanAll), (false, Act::CleanRange { r: 10 })] {
+                    if keep_last && n < 2 {
+                        continue;
+                    }
+                    let mut seq: Vec<usize> = idxs[..n].iter().map(|&p| find(&self.acts, Act::Map { page: p, frame: 0, flags: 0, parent: 0, sched: 0 })).collect();
+                    let un = if keep_last { n - 1 } else { n };
+                    seq.extend(idxs[..un].iter().map(|&p| find(&self.acts, Act::Unmap { page: p })));
+                    seq.push(find(&self.acts, clean));
+                    let mut st = self.initial();
+                    for &ai in &seq {
+                        self.restore(&st);
+                        let tb = walk_all_mode(sim(), self.skip, st.ood);
+                        steps += 1;
+                        match self.step(&st, ai, &tb) {
+                            Some(ns) => st = ns,
+                            None => break,
+                        }
+                    }
+                    self.restore(&st);
+                    self.check_state(&st, false);
+                }
+            }
+        }
+        for p in PROPS {
+            let r = self.reps.get_mut(p).unwrap();
+            r.notes.push(format!("wide histories: 1..=21 sibling tables per parent at each level, emptied and cleaned up in one call ({} calls)", steps));
+        }
+    }
+}
+
 pub fn replay(case: &str) -> Vec<Rep> {
     let t: Vec<&str> = case.split_whitespace().collect();
     let cfg = Config::parse(t[1]);
@@ -1303,6 +1378,7 @@ pub fn run(a: &Args) {
     let mut e = Engine::new(cfg);
     e.search(&bounds, a, max_states);
     e.soak(if a.thorough() { 600_000 } else { 30_000 });
+    e.wide();
 
     for r in e.reps.values() {
         r.emit();
